@@ -534,8 +534,14 @@ def main(argv=None):
         return 1
     if broken:
         return 2 if all(b.startswith("UNDECIDED") for b in broken) else 3
-    print("OK property=%s tier=%s obligations=%d discharged=%d functions=%d wall=%.1fs" % (
-        pid, tier, obligations, discharged, len(functions_under_contract), wall))
+    ndeg = sum(1 for f in functions_under_contract if f.get("degraded"))
+    for f in functions_under_contract:
+        if f.get("degraded"):
+            # not an alarm: the function is no longer decided by proof on this tree (its contract does not resolve or it left
+            # the subset) and only the bounded stand-ins stand behind the property for it
+            print("DEGRADED: property=%s function=%s decided by the bounded stand-in only (%s)" % (pid, f["target"], str(f.get("reason"))[:200]))
+    print("OK property=%s tier=%s obligations=%d discharged=%d functions=%d%s wall=%.1fs" % (
+        pid, tier, obligations, discharged, len(functions_under_contract), (" degraded=%d" % ndeg) if ndeg else "", wall))
     return 0
 
 
